@@ -10,6 +10,12 @@
 //!                                            supervisor: every record {"doc":..} is run in an isolated child
 //!                                            worker; hang / abort / stack overflow are data for that case
 //!   c13 worker                               (child) reads cases on stdin, answers one line per case
+//!   c13 gen-chains --seed S --tier quick|thorough --out F
+//!                                            deterministic families of LONG ACYCLIC CHAINS through every link the
+//!                                            walkers follow, lengths around and far beyond every limit: {"fam","len"}
+//!   c13 chains --in F --out F [--stack-kb K] [--timeout-ms T] [--mem-mb M]
+//!                                            every query of the family plan is one supervised case, run in a thread
+//!                                            with a K KiB stack (default 2048 = Rust's spawned-thread default)
 //!
 //! Output of `run`, one record per input record:
 //!   {"i": index, "ran": bool, "obs": [{"q": query, "id": n, "kind": "panic"|"hang"|"crash", "msg": ..}],
@@ -198,16 +204,17 @@ fn run_query(doc: &Document, q: &str, id: u32) -> Value {
         }
         "get_toc" => json!(tag(&doc.get_toc())),
         "extract_text" => {
-            let nums: Vec<u32> = (0..=n + 1).collect();
+            let np = if n > 64 { 2 } else { n };      // chain families: thousands of objects, one page
+            let nums: Vec<u32> = (0..=np + 1).collect();
             let all = doc.extract_text(&nums);
             let mut each = vec![tag(&all)];
-            for p in 1..=n {
+            for p in 1..=np {
                 each.push(tag(&doc.extract_text(&[p])));
             }
             json!(each)
         }
         "extract_text_chunks" => {
-            let nums: Vec<u32> = (0..=n + 1).collect();
+            let nums: Vec<u32> = (0..=(if n > 64 { 2 } else { n }) + 1).collect();
             json!(doc.extract_text_chunks(&nums).len())
         }
         "get_object" => json!(tag(&doc.get_object(oid(id)))),
@@ -314,6 +321,9 @@ fn worker_case(line: &str) -> String {
         Ok(v) => v,
         Err(e) => return json!({"harness_error": format!("bad case json: {e}")}).to_string(),
     };
+    if case.get("fam").is_some() {
+        return family_case(&case);
+    }
     let doc = match guarded(|| build(&case["doc"])) {
         Ok(d) => d,
         Err(p) => return json!({"harness_error": format!("builder panicked: {p}")}).to_string(),
@@ -382,6 +392,308 @@ fn worker() {
     }
     lopdf_conform::guard::quiet_panics();
     sup::worker_loop(worker_case);
+}
+
+
+// ------------------------------------------------------------------ long acyclic chains (deterministic families)
+// Layout of every family document: 1 catalog, 2 page-tree root, 3 the page, 4 content stream, 5 outline
+// dictionary, 6 a resources dictionary, 7 a font; the chain occupies objects 10 .. 9+len.  Everything is
+// acyclic, nothing dangles, every value has the expected kind — only the length is hostile.
+const HEAD: u32 = 10;
+const FAMILIES: &[&str] = &[
+    "parent",    // page /Parent -> len /Pages dictionaries linked by /Parent (each with /Resources 6 0 R)
+    "first",     // outline nested len levels through /First
+    "next",      // len sibling outline items linked by /Next
+    "kids",      // /Dests name tree nested len levels through single /Kids, /Names pair in the leaf
+    "kidswide",  // name-tree root with len-1 leaf kids
+    "pagekids",  // page tree nested len levels through /Kids (each level: [next level, the page])
+    "contents",  // page /Contents = array of len references to the content stream
+    "annots",    // page /Annots = array of len references to annotation dictionaries (the chain objects)
+    "refchain",  // len reference objects 10 -> 11 -> ..; reached from /Contents, /Resources, /Outlines, /Dests, /Parent
+    "fontchain", // /Font dictionary with len entries F10.. each a font whose /ToUnicode is absent
+    "length",    // the content stream's /Length is a reference into a chain of len reference objects
+];
+
+fn rf(n: u32) -> Object {
+    Object::Reference((n, 0))
+}
+fn nm(s: &str) -> Object {
+    Object::Name(s.as_bytes().to_vec())
+}
+fn dict(pairs: Vec<(&str, Object)>) -> Dictionary {
+    let mut d = Dictionary::new();
+    for (k, v) in pairs {
+        d.set(k, v);
+    }
+    d
+}
+
+fn build_family(fam: &str, len: u32) -> Document {
+    let mut d = Document::with_version("1.5");
+    let last = HEAD + len - 1;
+    let dest = || Object::Array(vec![rf(3), nm("Fit")]);
+    let mut cat = dict(vec![("Type", nm("Catalog")), ("Pages", rf(2)), ("Outlines", rf(5))]);
+    let mut root = dict(vec![("Type", nm("Pages")), ("Kids", Object::Array(vec![rf(3)])), ("Count", Object::Integer(1))]);
+    let mut page = dict(vec![
+        ("Type", nm("Page")),
+        ("Parent", rf(2)),
+        ("Contents", rf(4)),
+        ("Resources", Object::Dictionary(dict(vec![("Font", Object::Dictionary(dict(vec![("F1", rf(7))])))]))),
+    ]);
+    let mut outlines = dict(vec![("Type", nm("Outlines"))]);
+    let mut content = Stream::new(Dictionary::new(), TEXT_CONTENT.to_vec());
+    let mut res6 = dict(vec![("Font", Object::Dictionary(dict(vec![("F1", rf(7))])))]);
+    let font = dict(vec![("Type", nm("Font")), ("Subtype", nm("Type1")), ("Encoding", nm("WinAnsiEncoding"))]);
+    for i in HEAD..=last {
+        let nxt = if i < last { Some(rf(i + 1)) } else { None };
+        let o = match fam {
+            "parent" => {
+                let mut n = dict(vec![("Type", nm("Pages")), ("Resources", rf(6))]);
+                if let Some(x) = nxt {
+                    n.set("Parent", x);
+                }
+                Object::Dictionary(n)
+            }
+            "first" | "next" => {
+                let mut n = dict(vec![("Title", Object::string_literal("a")), ("Dest", dest())]);
+                if let Some(x) = nxt {
+                    n.set(if fam == "first" { "First" } else { "Next" }, x);
+                }
+                Object::Dictionary(n)
+            }
+            "kids" => match nxt {
+                Some(x) => Object::Dictionary(dict(vec![("Kids", Object::Array(vec![x]))])),
+                None => Object::Dictionary(dict(vec![(
+                    "Names",
+                    Object::Array(vec![Object::string_literal("t"), Object::Dictionary(dict(vec![("D", dest())]))]),
+                )])),
+            },
+            "kidswide" => {
+                if i == HEAD {
+                    Object::Dictionary(dict(vec![("Kids", Object::Array((HEAD + 1..=last).map(rf).collect()))]))
+                } else {
+                    Object::Dictionary(dict(vec![(
+                        "Names",
+                        Object::Array(vec![Object::string_literal("t"), Object::Dictionary(dict(vec![("D", dest())]))]),
+                    )]))
+                }
+            }
+            "pagekids" => {
+                let kids = match nxt {
+                    Some(x) => vec![x, rf(3)],
+                    None => vec![rf(3)],
+                };
+                Object::Dictionary(dict(vec![("Type", nm("Pages")), ("Kids", Object::Array(kids)), ("Count", Object::Integer(1))]))
+            }
+            "annots" => Object::Dictionary(dict(vec![("Type", nm("Annot")), ("Subtype", nm("Link"))])),
+            "refchain" | "length" => match nxt {
+                Some(x) => x,
+                None => {
+                    if fam == "length" {
+                        Object::Integer(TEXT_CONTENT.len() as i64)
+                    } else {
+                        rf(8)
+                    }
+                }
+            },
+            "fontchain" => Object::Dictionary(dict(vec![("Type", nm("Font")), ("Subtype", nm("Type0")), ("Encoding", nm("Identity-H"))])),
+            "contents" => Object::Null,
+            _ => panic!("unknown family {fam}"),
+        };
+        d.objects.insert((i, 0), o);
+    }
+    match fam {
+        "parent" => page.set("Parent", rf(HEAD)),
+        "first" | "next" => outlines.set("First", rf(HEAD)),
+        "kids" | "kidswide" => cat.set("Names", Object::Dictionary(dict(vec![("Dests", rf(HEAD))]))),
+        "pagekids" => root.set("Kids", Object::Array(vec![rf(HEAD)])),
+        "contents" => page.set("Contents", Object::Array((0..len).map(|_| rf(4)).collect::<Vec<_>>())),
+        "annots" => page.set("Annots", Object::Array((HEAD..=last).map(rf).collect::<Vec<_>>())),
+        "refchain" => {
+            // object 8 = a dictionary that is page-parent, resources, outline and name tree at once
+            d.objects.insert((8, 0), Object::Dictionary(dict(vec![
+                ("Type", nm("Pages")), ("Font", Object::Dictionary(dict(vec![("F1", rf(7))]))),
+                ("Title", Object::string_literal("a")), ("Dest", dest()),
+                ("Names", Object::Array(vec![Object::string_literal("t"), Object::Dictionary(dict(vec![("D", dest())]))])),
+            ])));
+            page.set("Contents", rf(HEAD));
+            page.set("Parent", rf(HEAD));
+            page.set("Resources", rf(HEAD));
+            cat.set("Outlines", rf(HEAD));
+            cat.set("Dests", rf(HEAD));
+            root.set("Kids", Object::Array(vec![rf(3)]));
+        }
+        "fontchain" => {
+            let mut f = Dictionary::new();
+            for i in HEAD..=last {
+                f.set(format!("F{i}"), rf(i));
+            }
+            res6 = dict(vec![("Font", Object::Dictionary(f))]);
+            page.set("Resources", rf(6));
+        }
+        "length" => content.dict.set("Length", rf(HEAD)),
+        _ => {}
+    }
+    d.objects.insert((1, 0), Object::Dictionary(cat));
+    d.objects.insert((2, 0), Object::Dictionary(root));
+    d.objects.insert((3, 0), Object::Dictionary(page));
+    d.objects.insert((4, 0), Object::Stream(content));
+    d.objects.insert((5, 0), Object::Dictionary(outlines));
+    d.objects.insert((6, 0), Object::Dictionary(res6));
+    d.objects.insert((7, 0), Object::Dictionary(font));
+    d.max_id = last.max(9);
+    d.trailer.set("Root", rf(1));
+    d
+}
+
+/// The calls made on a family document: the document-level queries and the per-object queries on the fixed
+/// objects and on the head, the middle and the end of the chain.
+fn family_plan(len: u32) -> Vec<(&'static str, u32)> {
+    let mut ids = vec![0, 1, 2, 3, 5, 6, HEAD, HEAD + len / 2, HEAD + len - 1];
+    ids.dedup();
+    let full = plan(0);
+    let mut p: Vec<(&'static str, u32)> = full.iter().filter(|(_, id)| *id == 0).take(7).cloned().collect();
+    let per: Vec<&'static str> = full.iter().skip(7).map(|(q, _)| *q).collect();
+    let mut seen = std::collections::BTreeSet::new();
+    for id in ids {
+        if seen.insert(id) {
+            for q in &per {
+                p.push((q, id));
+            }
+        }
+    }
+    p
+}
+
+thread_local! {
+    static FAMILY_DOC: std::cell::RefCell<Option<(String, u32, std::sync::Arc<Document>)>> = const { std::cell::RefCell::new(None) };
+}
+
+/// Worker side of a family case {"fam", "len", "stack_kb", "only": [q, id]}: the query runs in a thread with the
+/// given stack, so "how deep may a walker recurse" is a stated parameter of the experiment, not an accident.
+fn family_case(case: &Value) -> String {
+    let fam = case["fam"].as_str().unwrap().to_string();
+    let len = case["len"].as_u64().unwrap() as u32;
+    let stack_kb = case["stack_kb"].as_u64().unwrap_or(2048) as usize;
+    let o = case["only"].as_array().expect("family cases are single queries");
+    let (q, id) = (o[0].as_str().unwrap().to_string(), o[1].as_u64().unwrap() as u32);
+    let doc = FAMILY_DOC.with(|c| {
+        let mut c = c.borrow_mut();
+        match &*c {
+            Some((f, l, d)) if *f == fam && *l == len => d.clone(),
+            _ => {
+                let d = std::sync::Arc::new(build_family(&fam, len));
+                *c = Some((fam.clone(), len, d.clone()));
+                d
+            }
+        }
+    });
+    let d2 = doc.clone();
+    let q2 = q.clone();
+    let h = std::thread::Builder::new()
+        .stack_size(stack_kb * 1024)
+        .spawn(move || guarded(|| run_query(&d2, &q2, id)))
+        .expect("spawn query thread");
+    match h.join().expect("query thread") {
+        Ok(v) => json!({"obs": [], "val": v}).to_string(),
+        Err(msg) => json!({"obs": [{"q": q, "id": id, "kind": "panic", "msg": msg.chars().take(160).collect::<String>()}], "val": "panic"}).to_string(),
+    }
+}
+
+fn count_of(v: &Value) -> Value {
+    // {t, ids} -> {t, n}
+    json!({"t": v["t"], "n": v["ids"].as_array().map(|a| a.len()).unwrap_or(0)})
+}
+
+fn chains(args: &[String]) {
+    let recs = read_ndjson(&arg(args, "--in").unwrap());
+    let mut out = NdjsonOut::create(&arg(args, "--out").unwrap());
+    let timeout = Duration::from_millis(arg_u64(args, "--timeout-ms", 5000));
+    let mem = arg_u64(args, "--mem-mb", 2048);
+    let stack_kb = arg_u64(args, "--stack-kb", 2048);
+    let exe = std::env::current_exe().unwrap().to_string_lossy().to_string();
+    let wargs = vec!["worker".to_string()];
+    for (i, r) in recs.iter().enumerate() {
+        let fam = r["fam"].as_str().unwrap();
+        let len = r["len"].as_u64().unwrap() as u32;
+        let pl = family_plan(len);
+        let cases: Vec<String> =
+            pl.iter().map(|(q, id)| json!({"fam": fam, "len": len, "stack_kb": stack_kb, "only": [q, id]}).to_string()).collect();
+        let res = sup::run_cases(&exe, &wargs, &cases, timeout, mem);
+        let mut obs = vec![];
+        let na = json!({"t": "na", "n": 0});
+        let mut sum = json!({"outl": "na", "toc": "na", "nd": "na", "deref": "na", "pages": na, "rsrc": na, "cont": na});
+        for (k, o) in res.iter().enumerate() {
+            let (q, id) = pl[k];
+            let val = match o {
+                sup::Outcome::Line(l) => {
+                    let v: Value = serde_json::from_str(l).expect("worker line");
+                    if v.get("harness_error").is_some() {
+                        eprintln!("harness error in family case {fam}/{len}: {v}");
+                        std::process::exit(3);
+                    }
+                    if let Some(a) = v["obs"].as_array() {
+                        obs.extend(a.iter().cloned());
+                    }
+                    v["val"].clone()
+                }
+                other => {
+                    let (mut kind, mut msg) = outcome_kind(other).unwrap();
+                    if kind == "hang" {
+                        let again = sup::run_cases(&exe, &wargs, &cases[k..k + 1], timeout * 3, mem);
+                        match outcome_kind(&again[0]) {
+                            None => continue,
+                            Some((k2, m2)) => {
+                                kind = k2;
+                                msg = m2;
+                            }
+                        }
+                    }
+                    obs.push(json!({"q": q, "id": id, "kind": kind, "msg": msg}));
+                    json!(kind)
+                }
+            };
+            let bare = val.is_string();
+            match (q, id) {
+                ("get_outlines", _) => sum["outl"] = val,
+                ("get_toc", _) => sum["toc"] = val,
+                ("get_pages", _) => sum["pages"] = if bare { json!({"t": val, "n": 0}) } else { count_of(&val) },
+                ("get_named_destinations", HEAD) => sum["nd"] = val,
+                ("dereference", HEAD) => sum["deref"] = val,
+                ("get_page_resources", 3) => sum["rsrc"] = if bare { json!({"t": val, "n": 0}) } else { count_of(&val) },
+                ("get_page_contents", 3) => sum["cont"] = if bare { json!({"t": val, "n": 0}) } else { count_of(&val) },
+                _ => {}
+            }
+        }
+        out.put(&json!({"i": i, "fam": fam, "len": len, "ran": true, "calls": pl.len(), "stack_kb": stack_kb, "obs": obs, "res": sum}));
+    }
+    out.finish();
+}
+
+fn gen_chains(args: &[String]) {
+    let seed = arg_u64(args, "--seed", 1);
+    let thorough = arg_or(args, "--tier", "quick") == "thorough";
+    let mut out = NdjsonOut::create(&arg(args, "--out").unwrap());
+    let mut rng = Rng::new(seed ^ 0xC13C);
+    // powers of ten far beyond every limit; the neighbourhood of DEREF_LIMIT (128) and of the depth limits (256)
+    let mut lens: Vec<u32> = vec![1, 2, 10, 100, 127, 128, 129, 130, 255, 256, 257, 258, 259, 1000, 10_000];
+    if thorough {
+        lens.push(100_000);
+    }
+    for fam in FAMILIES {
+        let mut ls = lens.clone();
+        for _ in 0..(if thorough { 6 } else { 2 }) {
+            ls.push(2 + rng.below(3000) as u32);
+        }
+        for l in ls {
+            // wide arrays of 100 000 copies of the text stream only cost time in the content parser
+            if (*fam == "contents" || *fam == "fontchain") && l > 10_000 {
+                continue;
+            }
+            out.put(&json!({"fam": fam, "len": l}));
+        }
+    }
+    out.finish();
 }
 
 // ------------------------------------------------------------------ supervisor
@@ -804,6 +1116,8 @@ fn main() {
         Some("gen") => gen(&args),
         Some("run") => run(&args),
         Some("worker") => worker(),
+        Some("chains") => chains(&args),
+        Some("gen-chains") => gen_chains(&args),
         _ => {
             eprintln!("usage: c13 gen --seed S --n N --out F | run --in F --out F [--timeout-ms T] [--mem-mb M] | worker");
             std::process::exit(2)
